@@ -64,7 +64,7 @@ GEN_THOROUGH = GEN_QUICK + [
                                          '[rr |-> "rdataNameCase", sig |-> "genuine", key |-> "genuine", rttl |-> 5]',
                                          '[rr |-> "genuine", sig |-> "genuine", key |-> "otherKey", rttl |-> 5]']) + "}",
               "P_RRV": "AllRRV", "P_SIGV": "AllSIGV", "P_KEYV": "AllKEYV"}, 4, 7, 4, "TRUE"),
-    ("three-config", {"P_RecTtls": "{2, 5, 100}", "P_Steps": "{1, 3, 7}", "P_Starts": "{8, 11, 14}", "P_Cfgs": ALL_CFGS,
+    ("threecfg", {"P_RecTtls": "{2, 5, 100}", "P_Steps": "{1, 3, 7}", "P_Starts": "{8, 11, 14}", "P_Cfgs": ALL_CFGS,
                       "P_Args": SMALL_ARGS, "P_RRV": "AllRRV", "P_SIGV": "AllSIGV", "P_KEYV": "AllKEYV"}, 3, 5, 3, "TRUE"),
 ]
 
@@ -248,7 +248,10 @@ def run(res, tier, seed):
             # a Secure RRSIG without a Secure RRset, or no RRSIG at all
             res.mismatch("secure-without-rrsig", {"alteration": _alteration(m["note"]), "cached": cached}, m)
             continue
-        for w in ws:
+        failing = [w for w in ws if not (w["belongs"] and w["exact"] and w["signature"] and w["window"]
+                                         and (w["key"] or w["estab"]) and w["ttl"])]
+        # (a Secure RRSIG whose RRset is fine is the only way for `failing` to be empty)
+        for w in failing or ws:
             cls_, fields = classify(w["exact"] and w["signature"], w["window"], w["key"] or w["estab"], w["ttl"],
                                     cached, m["note"], covered=w["belongs"])
             fields["cfg"] = m.get("cfg", "?")
